@@ -187,7 +187,13 @@ public:
             return r;
         }
         Handle subscribe_lk(Handle h, const subscriber<T> *sub) {
-            auto r = subscribe_lk(sub, _regs[h]._pos);
+            //a source which is suspended in next() has already advanced to the position
+            //of the value it is waiting for. The copy has not received that value either,
+            //so it must start one position back (otherwise it skips that value or - when
+            //it is read before the value arrives - it is beyond the end of the stream)
+            const subreg_t &src = _regs[h];
+            std::size_t pos = src._awt?src._pos-1:src._pos;
+            auto r = subscribe_lk(sub, pos);
             return r;
         }
 
